@@ -48,15 +48,39 @@ def type_atoms(tdef):
     return atoms, bonds
 
 
+TYPE_MASS = 36.0
+
+
+def atom_mass_columns(sysdef, k):
+    """(text of the optional charge / mass columns, mass that counts) for the k-th atom (1-based) of a molecule type.
+    mass_mode 'mixed': every third atom has an explicit mass of 0 (virtual-site style), every third has no mass column
+    (the atom type's mass counts), the rest 72."""
+    if sysdef.get("mass_mode") != "mixed":
+        return " 0.0 72.0", 72.0
+    if k % 3 == 0:
+        return " 0.0 0.0", 0.0
+    if k % 3 == 2:
+        return "", TYPE_MASS
+    return " 0.0 72.0", 72.0
+
+
+def total_mass(sysdef):
+    tot = 0.0
+    for name, count in sysdef["molecules"]:
+        atoms, _ = type_atoms(get_typedef(sysdef, name))
+        tot += count * sum(atom_mass_columns(sysdef, idx)[1] for idx, _, _, _ in atoms)
+    return tot
+
+
 def render_top(sysdef):
-    out = ["[ defaults ]", "1 2 no 1.0 1.0", "[ atomtypes ]", "P 72.0 0.0 A 0.47 4.0"]
+    out = ["[ defaults ]", "1 2 no 1.0 1.0", "[ atomtypes ]", f"P {TYPE_MASS} 0.0 A 0.47 4.0"]
     for name in sysdef["types"]:
         tdef = TYPES[name] if isinstance(name, str) and name in TYPES else None
         tdef = sysdef.get("typedefs", {}).get(name, tdef)
         atoms, bonds = type_atoms(tdef)
         out += ["[ moleculetype ]", f"{name} 1", "[ atoms ]"]
         for idx, resid, resname, an in atoms:
-            out.append(f"{idx} P {resid} {resname} {an} {idx} 0.0 72.0")
+            out.append(f"{idx} P {resid} {resname} {an} {idx}" + atom_mass_columns(sysdef, idx)[0])
         if bonds:
             out.append("[ bonds ]")
             for a, b in bonds:
